@@ -78,10 +78,16 @@ enum Op {
     Decode([u8; 32]),
     Encode(u64),
     Elligator(BigUint),
+    /// generic field square root and Legendre symbol (ark_ff::Field) against Euler's criterion
+    FieldSqrt(BigUint),
+    /// k*B + (r-k)*B: the identity, possibly through its (0,-1) representative
+    IdentityAlt(u64),
 }
 
 #[derive(Clone, Debug, PartialEq, Eq)]
 enum Res {
+    /// (sqrt exists, legendre as -1/0/1)
+    FieldSqrt(Option<BigUint>, i8),
     Sqrt(bool, BigUint),
     Decode(Option<[u8; 32]>),
     Encode([u8; 32]),
@@ -96,11 +102,27 @@ static OPS: AtomicU64 = AtomicU64::new(0);
 
 /// Workload of one operation, drawn from shuttle's data source so that it is
 /// part of the recorded schedule.
-fn draw_op() -> Op {
+fn draw_op(prev: Option<&Op>) -> Op {
     let mut rng = shuttle::rand::thread_rng();
     let inp = inputs();
     let f = fq();
-    match rng.gen_range(0..10u32) {
+    // call sequences on one thread: the same denominator again with another numerator
+    if let Some(Op::Sqrt { den, digits, .. }) = prev {
+        if rng.gen_range(0..3u32) == 0 {
+            let num = match rng.gen_range(0..4u32) {
+                0 => BigUint::from(2u32),
+                1 => rd::zeta().clone(),
+                2 => f.mul(den, den),
+                _ => BigUint::from(rng.gen::<u64>()) + 2u32,
+            };
+            return Op::Sqrt {
+                num,
+                den: den.clone(),
+                digits: *digits,
+            };
+        }
+    }
+    match rng.gen_range(0..12u32) {
         0..=4 => {
             // den = g^e * u, u of odd order; e's six table digits (7 + 5x8 bits) structured
             let mut digits = [0u8; 6];
@@ -156,7 +178,15 @@ fn draw_op() -> Op {
             }
         }
         7 | 8 => Op::Encode(rng.gen_range(0..40u64)),
-        _ => Op::Elligator(BigUint::from(rng.gen_range(0..1000u64))),
+        9 => Op::Elligator(BigUint::from(rng.gen_range(0..1000u64))),
+        10 => Op::FieldSqrt(match rng.gen_range(0..6u32) {
+            0 => BigUint::from(0u32),
+            1 => BigUint::from(1u32),
+            2 => rd::zeta().clone(),
+            3 => &f.p - 1u32,
+            _ => BigUint::from(rng.gen::<u64>()),
+        }),
+        _ => Op::IdentityAlt(rng.gen_range(1..40u64)),
     }
 }
 
@@ -169,6 +199,20 @@ fn exec_op(op: &Op) -> Res {
         Op::Decode(b) => Res::Decode(Encoding(*b).vartime_decompress().ok().map(|e| e.vartime_compress().0)),
         Op::Encode(k) => Res::Encode((Element::GENERATOR * Fr::from(*k)).vartime_compress().0),
         Op::Elligator(r) => Res::Elligator(Element::encode_to_curve(&big_to_fq(r)).vartime_compress().0),
+        Op::FieldSqrt(x) => {
+            use ark_ff::Field;
+            let v = big_to_fq(x);
+            let leg = match v.legendre() {
+                ark_ff::LegendreSymbol::Zero => 0,
+                ark_ff::LegendreSymbol::QuadraticResidue => 1,
+                ark_ff::LegendreSymbol::QuadraticNonResidue => -1,
+            };
+            Res::FieldSqrt(v.sqrt().map(|y| fq_to_big(&y)), leg)
+        }
+        Op::IdentityAlt(k) => {
+            let r_minus_k = -Fr::from(*k);
+            Res::Encode((Element::GENERATOR * Fr::from(*k) + Element::GENERATOR * r_minus_k).vartime_compress().0)
+        }
     }
 }
 
@@ -191,6 +235,12 @@ fn exec_op_min(op: &Op) -> Res {
         Op::Decode(b) => Res::Decode(m::Encoding(*b).vartime_decompress().ok().map(|e| e.vartime_compress().0)),
         Op::Encode(k) => Res::Encode(m::Element::GENERATOR.scalar_mul_vartime(&[*k]).vartime_compress().0),
         Op::Elligator(r) => Res::Elligator(m::Element::encode_to_curve(&to_fq(r)).vartime_compress().0),
+        // the minimal build has no generic Field trait: judged on the arkworks build only
+        Op::FieldSqrt(_) => exec_op(op),
+        Op::IdentityAlt(k) => {
+            let g = m::Element::GENERATOR;
+            Res::Encode((g * m::Fr::from(*k) + g * (-m::Fr::from(*k))).vartime_compress().0)
+        }
     }
 }
 
@@ -219,6 +269,36 @@ fn judge(op: &Op, res: &Res) {
                 panic!("INVARIANT encode_under_contention: {}*B -> {}, reference {}", k, hex(b), hex(&want));
             }
         }
+        (Op::FieldSqrt(x), Res::FieldSqrt(root, leg)) => {
+            let f = fq();
+            let want_leg: i8 = if *x == BigUint::from(0u32) {
+                0
+            } else if f.is_square(x) {
+                1
+            } else {
+                -1
+            };
+            if *leg != want_leg {
+                panic!("INVARIANT legendre_vs_euler: legendre({:x}) = {}, Euler's criterion says {}", x, leg, want_leg);
+            }
+            match root {
+                Some(y) => {
+                    if f.sqr(y) != *x {
+                        panic!("INVARIANT field_sqrt: sqrt({:x})^2 != x", x);
+                    }
+                }
+                None => {
+                    if want_leg >= 0 {
+                        panic!("INVARIANT field_sqrt: sqrt({:x}) is None but Euler's criterion says it is a square", x);
+                    }
+                }
+            }
+        }
+        (Op::IdentityAlt(k), Res::Encode(b)) => {
+            if *b != [0u8; 32] {
+                panic!("INVARIANT identity_encoding: {}*B + (r-{})*B encodes to {}, not to 32 zero bytes", k, k, hex(b));
+            }
+        }
         (Op::Elligator(_), Res::Elligator(b)) => {
             if rd::decode(b).is_err() {
                 panic!("INVARIANT elligator_under_contention: output {} is not a valid encoding", hex(b));
@@ -237,7 +317,12 @@ fn scenario(max_threads: usize, max_ops: usize) {
         let plans = (0..n)
             .map(|_| {
                 let k = if max_ops <= 1 { 1 } else { rng.gen_range(1..=max_ops) };
-                (0..k).map(|_| draw_op()).collect()
+                let mut v: Vec<Op> = Vec::new();
+                for _ in 0..k {
+                    let op = draw_op(v.last());
+                    v.push(op);
+                }
+                v
             })
             .collect();
         (n, plans)
